@@ -554,7 +554,7 @@ class _Inliner:
         binds = kept
         for l_, t_ in unify.items():
             mapping[l_] = t_
-        body = copy.deepcopy(_body_wo_doc(fn))
+        body = _collapse_pure_locals(copy.deepcopy(_body_wo_doc(fn)), stored)
         # single-expression helper: substitute parameters, no prelude
         if len(body) == 1 and isinstance(body[0], ast.Return) and body[0].value is not None and all(_simple(a) for _, a in binds):
             ex = dict(exprs)
@@ -877,6 +877,28 @@ class _Inliner:
                     self.dropped.append(d.qual)
 
 
+def _collapse_pure_locals(body, stored):
+    """`v = <pure expr>; ...; return E(v)` -> `return E(<pure expr>)`: a helper made of
+    single-assignment locals with call-free values is one expression"""
+    if len(body) < 2 or not isinstance(body[-1], ast.Return) or body[-1].value is None:
+        return body
+    env = {}
+    for st in body[:-1]:
+        if not (isinstance(st, ast.Assign) and len(st.targets) == 1 and isinstance(st.targets[0], ast.Name)) and not (isinstance(st, ast.AnnAssign) and isinstance(st.target, ast.Name) and st.value is not None):
+            return body
+        name = st.targets[0].id if isinstance(st, ast.Assign) else st.target.id
+        if name in env or any(isinstance(x, (ast.Call, ast.Await, ast.Yield, ast.YieldFrom, ast.NamedExpr, ast.Lambda, ast.ListComp, ast.SetComp, ast.DictComp, ast.GeneratorExp)) for x in ast.walk(st.value)):
+            return body
+        # single assignment: the name is stored once in the helper, and nothing it reads is stored at all
+        n_st = sum(1 for b in body for x in ast.walk(b) if isinstance(x, ast.Name) and x.id == name and isinstance(x.ctx, (ast.Store, ast.Del)))
+        if n_st != 1 or any(isinstance(x, ast.Name) and x.id in stored and x.id not in env for x in ast.walk(st.value)):
+            return body
+        env[name] = _Rename({}, env).visit(copy.deepcopy(st.value))
+    ret = copy.deepcopy(body[-1])
+    ret.value = _Rename({}, env).visit(ret.value)
+    return [ret]
+
+
 def _flatten_dicts(e):
     """{"a": 1, **{"b": 2}} -> {"a": 1, "b": 2}"""
     for n in ast.walk(e):
@@ -1019,10 +1041,17 @@ def fold_new_constants(mods, known):
         for n in ast.walk(tree):
             if isinstance(n, ast.Name) and isinstance(n.ctx, (ast.Store, ast.Del)):
                 counts[n.id] = counts.get(n.id, 0) + 1
+        def _target(st):
+            if isinstance(st, ast.Assign) and len(st.targets) == 1 and isinstance(st.targets[0], ast.Name):
+                return st.targets[0].id
+            if isinstance(st, ast.AnnAssign) and isinstance(st.target, ast.Name) and st.value is not None:
+                return st.target.id
+            return None
+
         for st in tree.body:
-            if isinstance(st, ast.Assign) and len(st.targets) == 1 and isinstance(st.targets[0], ast.Name) and isinstance(st.value, ast.Call):
+            if _target(st) and isinstance(st.value, ast.Call):
                 c = st.value
-                nm = st.targets[0].id
+                nm = _target(st)
                 if f"{rel}:{nm}" in known or counts.get(nm, 0) != 1:
                     continue
                 if isinstance(c.func, ast.Attribute) and c.func.attr == "compile" and isinstance(c.func.value, ast.Name) and c.func.value.id == "re" and c.args and isinstance(c.args[0], ast.Constant) and isinstance(c.args[0].value, str):
@@ -1045,7 +1074,7 @@ def fold_new_constants(mods, known):
                     return n
 
             for st in tree.body:
-                if isinstance(st, ast.Assign) and isinstance(st.targets[0], ast.Name) and st.targets[0].id in compiled:
+                if _target(st) in compiled:
                     continue
                 Recomp().visit(st)
             ast.fix_missing_locations(tree)
